@@ -5,7 +5,8 @@ prop=$(python3 -c "import json,sys;print(json.load(open('$d/meta.json'))['proper
 cd /verif
 if ! git -C /repo diff --quiet -- clematis configs scripts; then echo "REPO DIRTY, refusing"; exit 3; fi
 git -C /repo apply "$d/patch.diff" || { echo "patch does not apply"; exit 3; }
-trap 'git -C /repo checkout -- clematis configs scripts' EXIT
+evbak=$(mktemp -d); cp -a /verif/evidence/. "$evbak"/   # evidence must only ever come from runs on the unchanged tree
+trap 'git -C /repo checkout -- clematis configs scripts; cp -a "$evbak"/. /verif/evidence/; rm -rf "$evbak"' EXIT
 for p in $prop "$@"; do
   out=$(./check "$p" --tier "$tier" 2>&1); rc=$?
   echo "$d $p rc=$rc $(echo "$out" | grep -E '^(VIOLATION|INFRA)' | head -3 | tr '\n' ' ')"
